@@ -589,6 +589,79 @@ func collectConsts(env constEnv, f *ast.File) {
 	}
 }
 
+// genLockRangeTable translates ParseDatabaseLockRange / ParseSHMLockRange (litefs.go): a sequence
+// of `if start <= uint64(X) && uint64(Y) <= end { a = append(a, Z) }`.  Each statement becomes one
+// row (X, Y, Z) of lock-type constants (their values); anything else in the body makes the table
+// empty, which breaks the theorems about it.
+func genLockRangeTable(env constEnv, f *ast.File, fn, name string) string {
+	fd := findFunc(f, "", fn)
+	rows := []string{}
+	ok := fd != nil && fd.Body != nil
+	constOf := func(e ast.Expr) (int64, bool) {
+		// uint64(LockTypeX)
+		if c, isCall := e.(*ast.CallExpr); isCall && len(c.Args) == 1 {
+			e = c.Args[0]
+		}
+		id, isID := e.(*ast.Ident)
+		if !isID {
+			return 0, false
+		}
+		v, found := env[id.Name]
+		return v, found
+	}
+	if ok {
+		for _, st := range fd.Body.List {
+			ifs, isIf := st.(*ast.IfStmt)
+			if !isIf {
+				continue // declaration of the slice, return
+			}
+			and, isAnd := ifs.Cond.(*ast.BinaryExpr)
+			if !isAnd || and.Op != token.LAND || ifs.Else != nil || len(ifs.Body.List) != 1 {
+				ok = false
+				break
+			}
+			l, lok := and.X.(*ast.BinaryExpr)
+			r, rok := and.Y.(*ast.BinaryExpr)
+			if !lok || !rok || l.Op != token.LEQ || r.Op != token.LEQ {
+				ok = false
+				break
+			}
+			ls, lsok := l.X.(*ast.Ident)
+			re, reok := r.Y.(*ast.Ident)
+			if !lsok || !reok || ls.Name != "start" || re.Name != "end" {
+				ok = false
+				break
+			}
+			x, xok := constOf(l.Y)
+			y, yok := constOf(r.X)
+			as, isAs := ifs.Body.List[0].(*ast.AssignStmt)
+			if !xok || !yok || !isAs || len(as.Rhs) != 1 {
+				ok = false
+				break
+			}
+			call, isCall := as.Rhs[0].(*ast.CallExpr)
+			if !isCall || len(call.Args) != 2 {
+				ok = false
+				break
+			}
+			if fnID, isID := call.Fun.(*ast.Ident); !isID || fnID.Name != "append" {
+				ok = false
+				break
+			}
+			z, zok := constOf(call.Args[1])
+			if !zok {
+				ok = false
+				break
+			}
+			rows = append(rows, fmt.Sprintf("(%d, %d, %d)", x, y, z))
+		}
+	}
+	if !ok {
+		rows = nil
+	}
+	return fmt.Sprintf("/-- rows (X, Y, Z) of `%s`: `if start <= X && Y <= end { append Z }` -/\ndef %s : List (Nat × Nat × Nat) := [%s]\n", fn, name, strings.Join(rows, ", "))
+}
+
 func genFacts(repo string) []byte {
 	env := constEnv{}
 	files := map[string]*ast.File{}
@@ -631,6 +704,8 @@ func genFacts(repo string) []byte {
 
 	// Lock types (iota enum in litefs.go / db.go)
 	b.WriteString("\n" + genGates(repo, files) + "\n")
+	b.WriteString(genLockRangeTable(env, files["litefs.go"], "ParseDatabaseLockRange", "dbLockRangeTable") + "\n")
+	b.WriteString(genLockRangeTable(env, files["litefs.go"], "ParseSHMLockRange", "shmLockRangeTable") + "\n")
 	b.WriteString(genWriteLockSeq(files["db.go"]) + "\n")
 	b.WriteString(genSnapshotSeq(files["db.go"], "Export", "exportSeq") + "\n")
 	b.WriteString(genSnapshotSeq(files["db.go"], "WriteSnapshotTo", "snapshotSeq") + "\n")
